@@ -3,7 +3,7 @@ PROP = {'n_quick': 260,
  'n_thorough': 3000,
  'audit': 4,
  'audit_maxlen': 6000,
- 'rule': 'two streams: (i) `tamper`: explicit transactions over the C04 shape lattice blinded by the real crate under a seeded RNG, then ONE tamper of the '
+ 'rule': 'three streams: (o) `opened`: the real-network doc vector of verify_tx_amt_proofs, every tamper class at every position; (i) `tamper`: explicit transactions over the C04 shape lattice blinded by the real crate under a seeded RNG, then ONE tamper of the '
          "property's list applied to the real structures — explicit amount/asset, replaced or exchanged value/asset commitment, removed/exchanged/corrupted "
          'range or surjection proof, script of a blinded output, issuance amount, spent output with different amount/asset — at every applicable position '
          '(thorough) or one position per class and transaction (quick); (ii) `explicit`: all-explicit transactions, balanced / unbalanced in an input or '
@@ -33,7 +33,8 @@ TEXT = {'text': 'Kernel-checked theorems in the ideal-commitment model (level: p
  'design_ref': 'DESIGN.md section 6, C05',
  'note': 'Trusted: Coq kernel; the ideal-commitment idealisation; hand-written model of verify_tx_amt_proofs (same checks, same order, same error variants, '
          "including that an output's get_value_commit error is reported as SpentTxOutError) tied by per-run correspondence; harness. Known finding F13. "
-         "The repository's real-network vectors (tests/data, doc example) are not part of the stream: their openings are unknown, so the model cannot be "
-         'given their opened form (recorded in notes/C05.md).',
+         "The repository's real-network vector with known spent output (the doc example of verify_tx_amt_proofs, blinded by Elements Core) is part of the "
+         'stream with a FABRICATED balanced opening (its true openings are unknown; ideal verdicts depend only on the equational structure); the '
+         'tests/data transactions come without their spent outputs and cannot be verified at all.',
  'technique': 'Coq proof in an ideal-commitment model (coefficient calculus in the free module, binding of ideal proofs, one-position replacement lemmas for '
               'the input and output loops) + per-run model/implementation correspondence on tampered real transactions'}
